@@ -269,7 +269,7 @@ func NewBasicConstraints(critical bool, isCa bool, pathLen int) pkix.Extension {
 // PolicyInfo for the Certificate Policies Extension.
 type PolicyInfo struct {
 	asn1.ObjectIdentifier
-	Qualifiers []PolicyQualifier `asn1:"optional"`
+	Qualifiers []PolicyQualifier `asn1:"optional,omitempty"`
 }
 
 type PolicyQualifier struct {
